@@ -341,6 +341,32 @@ def bit_swap_after_postselection_family():
     return out
 
 
+def ket_after_hole_family():
+    """a qubit is removed (post-selected, discarded or measured destructively), leaving a hole in tket's register; then a
+    fresh qubit is prepared to the right of a wire that is still live"""
+    out = []
+    kills = [_mg("Bra", bits=[0]), _mg("Discard", tl=["q"]), _mg("Measure", n=1, f1=1, f2=0)]
+    for kill in kills:
+        for hole in (0, 1):
+            layers = [{"g": _mg("Ket", bits=[0, 0] if hole == 0 else [0, 0, 0]), "off": 0}]
+            if hole == 1:
+                layers.append({"g": _mg("X"), "off": 2})
+            layers.append({"g": kill, "off": hole})
+            ty = ["q"] * (1 if hole == 0 else 2)
+            if kill["k"] == "Measure":
+                ty = ty[:hole] + ["b"] + ty[hole:]
+            # the new qubit goes to the right end of the qubits (bits, if any, sit where the measured qubit was)
+            nq_left = len(ty)
+            layers.append({"g": _mg("Ket", bits=[0]), "off": nq_left})
+            first_q = ty.index("q")
+            layers.append({"g": _mg("X"), "off": first_q})
+            layers.append({"g": _mg("H"), "off": nq_left})
+            if kill["k"] != "Measure":
+                layers.append({"g": _mg("Measure", n=len(ty) + 1, f1=1, f2=0), "off": 0})
+            out.append({"ty": [], "layers": layers})
+    return out
+
+
 def work_one(mc):
     rec, t = observe_to(mc)
     out = [rec]
@@ -482,7 +508,7 @@ def run(tier, seed, t0):
         os.remove(model["dump"])
         n_all = len(circuits)
         sample = circuits if len(circuits) <= c["replay"] else rnd.sample(circuits, c["replay"])
-        sample = sample + dead_wire_family() + postselection_chain_family() + bit_after_copy_family() + overriding_measure_family() + bit_swap_after_postselection_family()
+        sample = sample + dead_wire_family() + postselection_chain_family() + bit_after_copy_family() + overriding_measure_family() + bit_swap_after_postselection_family() + ket_after_hole_family()
         with mp.get_context("fork").Pool(16) as pool:
             nested = pool.map(work_one, sample, chunksize=4)
         recs = [r for group in nested for r in group]
